@@ -670,3 +670,43 @@ void h_senderadd(void)
   V_COVER(verp && lastat_s >= 0 && lastat_r >= 0); V_COVER(verp && lastat_r < 0);
 }
 #endif
+
+/* ================= stripvdomprepend: the virtual-domain prefix is removed from a bounced recipient (C14) ================= */
+#ifdef P_STRIPV
+#define NR 9
+static char rcp[NR + 1], pre[4]; int g_np, g_hit = -1; char *g_pp[NR + 2]; int g_pl[NR + 2]; char *g_ret;
+char *constmap(struct constmap *cm, char *s, int len)
+{
+  V_ASSERT(cm == &mapvdoms && g_np < NR + 2 && g_hit < 0, "C14: supporting: the virtual-domain table is not consulted again after its first hit");
+  g_pp[g_np] = s; g_pl[g_np] = len;
+  if (ND_BOOL()) { g_hit = g_np; g_ret = ND_BOOL() ? pre : ""; } else g_ret = 0;
+  ++g_np; return g_ret;
+}
+void h_stripv(void)
+{
+  unsigned rl = ND_UINT() % (NR + 1), pl = ND_UINT() % 4, k, dl, n = 0; int at = -1; char *r, *dom;
+  for (k = 0; k < NR; ++k) { rcp[k] = ND_CHAR(); if (k < rl) V_ASSUME(rcp[k] != 0); }
+  rcp[rl] = 0; for (k = 0; k < 3; ++k) { pre[k] = ND_CHAR(); if (k < pl) V_ASSUME(pre[k] != 0); } pre[pl] = 0;
+  for (k = 0; k < rl; ++k) if (rcp[k] == '@') at = (int)k;
+  g_np = 0; g_hit = -1;
+  r = stripvdomprepend(rcp);
+  if (at < 0) { V_ASSERT(r == rcp && g_np == 0, "C14: a recipient without a domain is named as it is"); return; }
+  dom = rcp + at + 1; dl = rl - (unsigned)at - 1;
+  /* probes: the whole domain, then every .suffix, then the empty catch-all - in this order, longest first */
+  for (k = 0; k <= dl; ++k)
+    if (k == 0 || k == dl || dom[k] == '.') {
+      if (g_hit >= 0 && n > (unsigned)g_hit) break;
+      V_ASSERT(n < (unsigned)g_np && g_pp[n] == dom + k && g_pl[n] == (int)(dl - k), "C14: virtualdomains is consulted with the domain, then each .suffix, then the catch-all");
+      ++n;
+    }
+  V_ASSERT(n == (unsigned)g_np, "C14: supporting: no other lookups");
+  if (g_hit >= 0 && g_ret == pre && pl > 0) {
+    int m = 1; for (k = 0; k < pl; ++k) if (rcp[k] != pre[k]) m = 0;
+    if (m && rcp[pl] == '-') V_ASSERT(r == rcp + pl + 1, "C14: a recipient carrying the virtual-domain prefix and - is named without them in the bounce");
+    else V_ASSERT(r == rcp, "C14: a recipient that does not carry the prefix is named as it is");
+    V_COVER(m && rcp[pl] == '-' && g_hit == 1);
+  } else
+    V_ASSERT(r == rcp, "C14: without a virtual-domain prefix the recipient is named as it is");
+  V_COVER(g_hit < 0 && g_np == 3);
+}
+#endif
